@@ -165,6 +165,7 @@ func c10Run(cfg C10Config) (viol []engine.Violation, outcome string, herr string
 	if cfg.JS {
 		sp.JS = jsShapes[cfg.Shape]
 		sp.Parallelism = cfg.Parallelism
+		sp.ParallelismGiven = cfg.Parallelism < 1
 	}
 	jb, jc, err := jw.newJob(h, sp)
 	if err != nil {
@@ -343,6 +344,14 @@ func init() {
 					for p := 1; p <= jsP; p++ {
 						cfgs = append(cfgs, C10Config{N: n, Batch: b, Parallelism: p, Pipeline: "incremental", Shape: shape, JS: true})
 					}
+				}
+			}
+		}
+		// "Parallelism" values the scheduler accepts although nobody should give them
+		for _, pv := range []int{0, -1} {
+			for n := 0; n <= 5; n++ {
+				for b := 1; b <= 3; b++ {
+					cfgs = append(cfgs, C10Config{N: n, Batch: b, Parallelism: pv, Pipeline: "incremental", Shape: "identity", JS: true})
 				}
 			}
 		}
